@@ -97,7 +97,7 @@ let parse_item (s : string) : item =
 
 exception Budget
 
-let explain (s0 : coq_N) (joins : jres list) (st0 : st) (items : item list) : bool =
+let explain (strategy : int) (nbudget : int) (joins : jres list) (st0 : st) (items : item list) : bool =
   (* chains *)
   let names = Stdlib.List.sort_uniq compare (Stdlib.List.map (fun i -> i.chain) items) in
   let chains = Array.of_list (Stdlib.List.map (fun n ->
@@ -108,9 +108,17 @@ let explain (s0 : coq_N) (joins : jres list) (st0 : st) (items : item list) : bo
   let fch = idx_of "F" in
   let has_close = Stdlib.List.exists (fun i -> i.chain = "T" && i.tok = "x") items in
   (* callers: chain K<h>; model id of caller h once its Call was scheduled *)
-  let ncall = Array.fold_left (fun a n -> if String.length n > 0 && n.[0] = 'K' then a + 1 else a) 0 names in
-  ignore ncall;
-  let budget = ref 4_000_000 in
+  (* the order in which the chains are tried: as named (strategy 0) or callers by invocation time (1) or
+     callers in reverse (2); only a heuristic, every order is explored within the budget *)
+  let order =
+    let l = Stdlib.List.init nch (fun i -> i) in
+    let lo_of c = if Array.length chains.(c) > 0 then chains.(c).(0).lo else 0 in
+    match strategy with
+    | 1 -> Stdlib.List.stable_sort (fun a b -> compare (lo_of a) (lo_of b)) l
+    | 2 -> Stdlib.List.rev l
+    | _ -> l in
+  let order = Array.of_list order in
+  let budget = ref nbudget in
   let seen : (string, unit) Hashtbl.t = Hashtbl.create 100_000 in
   (* may item e (next in chain ci) be scheduled now?  no other open item ended before e began *)
   let time_ok (pos : int array) (ci : int) : bool =
@@ -144,7 +152,7 @@ let explain (s0 : coq_N) (joins : jres list) (st0 : st) (items : item list) : bo
            && chains.(ci).(1).tok = "ret:" ^ res_tok r && time_ok pos ci
            && (pos.(ci) <- 2; true))
       | _ -> true) o in
-  let candidates (s : st) : choice list =
+  let candidates (s : st) (ids : (int * int) list) : choice list =
     let mg = match s.mgrQ with
       | MJoin :: _ -> Stdlib.List.map (fun j -> MgrStep j) joins
       | _ :: _ -> [MgrStep JOk]
@@ -156,7 +164,15 @@ let explain (s0 : coq_N) (joins : jres list) (st0 : st) (items : item list) : bo
         Stdlib.List.concat_map (fun p -> [WMsg (p, true); WMsg (p, false)]) picks
       | _ :: _ -> [WMsg (N0, true); WMsg (N0, false)]
       | [] -> [] in
-    let tm = Stdlib.List.concat_map (fun (i, _) -> [TSend i; TQuit i]) s.timers in
+    (* timers: a timer that exits (TQuit) or whose message finds no entry changes nothing an observer sees,
+       and a timer that completes its entry makes the call return a timeout; so only the timers of calls
+       whose recorded result is a timeout need to fire (if a schedule explains the history, the schedule
+       without the other timer steps explains it as well) *)
+    let tm = Stdlib.List.concat_map (fun (i, _) ->
+        let id = int_of_nat i in
+        match Stdlib.List.find_opt (fun (_, m) -> m = id) ids with
+        | Some (ci, _) when Array.length chains.(ci) = 2 && chains.(ci).(1).tok = "ret:timeout" -> [TSend i]
+        | _ -> []) s.timers in
     mg @ [RdRead; RdFail; RdPush; RdClose; WStop; WAct true; WAct false] @ wm @ [WCpl; WDrain] @ tm in
   let rec go (s : st) (pos : int array) (ids : (int * int) list) : bool =
     if all_done pos then true else begin
@@ -168,7 +184,7 @@ let explain (s0 : coq_N) (joins : jres list) (st0 : st) (items : item list) : bo
         let found = ref false in
         let ci = ref 0 in
         while not !found && !ci < nch do
-          let c = !ci in
+          let c = order.(!ci) in
           if pos.(c) < Array.length chains.(c) then begin
             let it = chains.(c).(pos.(c)) in
             let is_env = (names.(c) = "T") || (String.length it.tok > 1 && String.sub it.tok 0 2 = "c:") in
@@ -192,11 +208,10 @@ let explain (s0 : coq_N) (joins : jres list) (st0 : st) (items : item list) : bo
               | Some (s', o) ->
                 let pos' = Array.copy pos in
                 if consume pos' ids o && go s' pos' ids then found := true
-              | None -> ()) (candidates s);
+              | None -> ()) (candidates s ids);
         !found
       end
     end in
-  ignore s0;
   go st0 (Array.make nch 0) []
 
 let join_prefix = [PeerSend (TOther (N0, true)); RdRead; MgrStep JOk; RdPush; WMsg (N0, true)]
@@ -211,8 +226,15 @@ let wexp (args : string list) : string =
         let before = n_of_int ((int_of_string s0 + 65535) mod 65536) in
         fst (run_w (init before) join_prefix)
       end else init s0n in
-    (try if explain s0n joins st0 (Stdlib.List.map parse_item items) then "exp ok" else "exp none"
-     with Budget -> "exp budget")
+    let items = Stdlib.List.map parse_item items in
+    let rec attempt = function
+      | [] -> "exp budget"
+      | (st, b) :: rest ->
+        (match (try Some (explain st b joins st0 items) with Budget -> None) with
+         | Some true -> "exp ok"
+         | Some false -> "exp none"
+         | None -> attempt rest) in
+    attempt [(0, 300_000); (1, 300_000); (2, 300_000); (0, 2_000_000)]
   | _ -> "bad-args"
 
 let init () =
